@@ -177,6 +177,7 @@ def lemma(prop, name, negated, names, replay_fn, rlimit=400_000_000, extra=None,
     t0 = time.time()
     s = z3.Solver()
     s.set('rlimit', rlimit)
+    s.set('timeout', 600_000)
     s.add(negated)
     t = time.time()
     r = s.check()
